@@ -426,6 +426,104 @@ def rule_ident_compare(ctx):
                       "a source spelled with different letter case in USING and ON is not recognised")
 
 
+def _quoted_descriptors():
+    """Statement descriptors whose object names are double-quoted identifiers (text must be kept verbatim)."""
+    from ..execmodel import lit
+    from ..values import Lst
+
+    def qid(n):
+        return NodeV("Identifier", {"this": Sym(n, typ="str", truthy=True, distinct=True), "quoted": Const(True)}, name=f"qid:{n}", open=False)
+
+    def qtable(n, db=None, cat=None):
+        a = {}
+        if n:
+            a["this"] = qid(n)
+        if db:
+            a["db"] = qid(db)
+        if cat:
+            a["catalog"] = qid(cat)
+        t = NodeV("Table", a, name="qtbl", open=False)
+        for v in a.values():
+            v.parent = t
+        return t
+    return {
+        "DESCRIBE TABLE \"qS\".\"qT\"": node("Describe", "stmt", kind=Const("table"), this=qtable("qT", "qS")),
+        "DESCRIBE TABLE \"qD\".\"qS\".\"qT\"": node("Describe", "stmt", kind=Const("table"), this=qtable("qT", "qS", "qD")),
+        "USE SCHEMA \"qS\"": node("Use", "stmt", kind=node("Var", this=Const("SCHEMA")), this=qtable("qS")),
+        "USE DATABASE \"qD\"": node("Use", "stmt", kind=node("Var", this=Const("DATABASE")), this=qtable("qD")),
+        "DROP TABLE \"qT\"": node("Drop", "stmt", kind=Const("TABLE"), this=qtable("qT")),
+        "CREATE SCHEMA \"qS\"": node("Create", "stmt", kind=Const("SCHEMA"), this=qtable(None, "qS")),
+        "SHOW TABLES IN SCHEMA \"qS\"": node("Show", "stmt", this=Const("TABLES"), terse=Const(False), scope=qtable("qS"), scope_kind=Const("SCHEMA")),
+        "SHOW TABLES IN DATABASE \"qD\"": node("Show", "stmt", this=Const("TABLES"), terse=Const(False), scope=qtable("qD"), scope_kind=Const("DATABASE")),
+        "COMMENT ON TABLE \"qS\".\"qT\"": node("Comment", "stmt", kind=Const("table"), this=qtable("qT", "qS"), expression=lit(Sym("cmt", typ="str", truthy=True))),
+        "SHOW PRIMARY KEYS IN TABLE \"qT\"": node("Show", "stmt", this=Const("PRIMARY KEYS"), terse=Const(False), scope=qtable("qT"), scope_kind=Const("TABLE")),
+    }
+
+
+def _all_syms(v, seen=None):
+    from ..values import Lst, Tup
+    seen = seen if seen is not None else set()
+    if id(v) in seen:
+        return
+    seen.add(id(v))
+    if isinstance(v, Sym):
+        yield v
+    elif isinstance(v, Str):
+        for p in v.parts:
+            if not isinstance(p, str):
+                yield from _all_syms(p, seen)
+    elif isinstance(v, NodeV):
+        for k, x in v.args.items():
+            if ":" not in k:
+                yield from _all_syms(x, seen)
+        src = getattr(v, "parsed_from", None)
+        if src is not None:
+            yield from _all_syms(src, seen)
+    elif isinstance(v, (Lst, Tup)):
+        for x in v.items:
+            yield from _all_syms(x, seen)
+
+
+def rule_quoted_verbatim(ctx):
+    """C02.g: the text of a double-quoted identifier reaches generated SQL, status text and session state verbatim."""
+    prog = ctx.prog
+    n = 0
+    for kind, _ in _quoted_descriptors().items():
+        sessions, hooks = [], []
+
+        def fac():
+            h = ExecHooks(None)
+            hooks.append(h)
+            return h
+
+        def run(I, kind=kind):
+            duck, conn, cur = make_session()
+            sessions.append(conn)
+            t = I.call(I.getattr(cur, "_transform"), [_quoted_descriptors()[kind]], {}, None)
+            return I.call(I.getattr(cur, "_execute"), [t, Const(None)], {}, None)
+
+        for p, conn, h in zip(explore(prog, fac, run, max_paths=32), sessions, hooks):
+            if p.outcome != "return":
+                continue
+            n += 1
+            bad = []
+            vals = [c[0] for c in h.calls] + [conn.attrs.get("database"), conn.attrs.get("schema")]
+            for v in vals:
+                k, root = (None, None)
+                if isinstance(v, Sym) and v.origin and v.origin[0] == "sql" and isinstance(v.origin[1], NodeV):
+                    root = v.origin[1]
+                for s_ in _all_syms(root if root is not None else v):
+                    if s_.origin and s_.origin[0] in ("upper", "lower", "casefold") and isinstance(s_.origin[1], Sym) and s_.origin[1].tag.startswith("q"):
+                        bad.append(s_.tag)
+            ok = not bad
+            ctx.ob("C02.g", f"{kind}: quoted identifier text is used verbatim", ok, "fakesnow/transforms.py", str(sorted(set(bad))))
+            if not ok:
+                ctx.violation("C02.g", "cursor", "FakeSnowflakeCursor._transform", f"{kind}: {sorted(set(bad))[0]}", "fakesnow/transforms.py",
+                              f"for {kind} the text of a double-quoted identifier is case-converted ({sorted(set(bad))}) before it is used in the "
+                              f"generated statement / session state: an object in a quoted mixed-case schema or database is not found")
+    ctx.floor("C02.g traces", n, 8)
+
+
 def rule_session_names(ctx):
     """C02.e: session names and status messages come from folded names."""
     prog = ctx.prog
@@ -479,5 +577,6 @@ RULES = [
     ("C02.c", rule_keyword_compare, ("quick", "thorough")),
     ("C02.d", rule_equal, ("quick", "thorough")),
     ("C02.f", rule_ident_compare, ("quick", "thorough")),
+    ("C02.g", rule_quoted_verbatim, ("quick", "thorough")),
     ("C02.e", rule_session_names, ("quick", "thorough")),
 ]
